@@ -32,7 +32,7 @@ def canon_of(st):
 
 
 def opk(rec):
-    (k, v), = rec["op"].items()
+    (k, v), = (rec["op"].items() if isinstance(rec["op"], dict) else [(rec["op"], {})])
     return k, v
 
 
